@@ -537,3 +537,15 @@ Theorem C05_esc_class_g_def : forall c0 gl f c,
     && forallb (fun s => match build_subcommand c (c_name s) with Some sc => pos_freeb gl f sc | None => true end) (c_subs c).
 Proof. exact (fun c0 gl f c => conj eq_refl eq_refl). Qed.
 Print Assumptions C05_esc_class_g_def.
+
+(** [parse_top] with a program name to fill in: the [do_parse] theorems above apply to [top_cmd c0 bin]
+    (the definition with [argv[0]] stored as its bin name when none was set) *)
+Theorem C05_parse_top_is_do_parse : forall c0 bin rest,
+  is_set s_no_binary_name c0 = false ->
+  parse_top c0 (bin :: rest) =
+  do_parse (match c_bin_name c0 with
+            | Some _ => c0
+            | None => if utf8_valid bin && negb (is_nil bin) then c0 <| c_bin_name := Some bin |> else c0
+            end) rest.
+Proof. exact parse_top_is_do_parse. Qed.
+Print Assumptions C05_parse_top_is_do_parse.
